@@ -7,7 +7,14 @@ import os
 def plan(tier):
     q = tier == "quick"
 
+    mcs = [{"module": "MyersTbMC", "cfg": "MyersTbMC.cfg" if q else "MyersTbMC_thorough.cfg"},
+           {"module": "MyersBandMC", "cfg": "MyersBandMC.cfg" if q else "MyersBandMC_thorough.cfg"}]
+    if not q:
+        mcs.append({"module": "MyersBandMC", "cfg": "MyersBandMC_garbage1_thorough.cfg"})
+
     def pre(ctx):
+        from props.C09 import run_mcs_parallel
+        run_mcs_parallel(mcs, ctx)
         # spec -> impl: every history of 3 (4) calls of the protocol machine, replayed into the real matchers
         import vlib
         out = os.path.join(ctx["workdir"], "myers-proto-behaviours.ndjson")
@@ -20,7 +27,7 @@ def plan(tier):
 
     return {
         "pre": pre,
-        "mc": [{"module": "MyersTbMC", "cfg": "MyersTbMC.cfg" if q else "MyersTbMC_thorough.cfg", "timeout": 3000}],
+        "mc": [],          # run side by side in `pre` (see props/C09.py: run_mcs_parallel)
         "families": [{"fam": "myers_tb", "trace": "MyersTbTrace", "nfiles": 1 if q else 4}],
         "required_obligations": [
             "tlc_behaviours_replayed", "exhaustive_small", "eager_hit_queried", "lazy_hit_queried", "lazy_frontier_plus_1",
@@ -30,7 +37,7 @@ def plan(tier):
         ],
         "rule": "spec->impl: every history of 3 (thorough: 4) calls that TLC generates from the protocol machine "
                 "MyersProtoMC (next*/start/path/alignment, lazy_next/hit_at/path_at/alignment_at at hits seen and at the "
-                "frontier) for all patterns |p|<=2 (3), texts |t|=3 (<=4), k<=1 (2), replayed on a single-word and a "
+                "frontier) for all patterns |p|<=2, texts |t|=3 (3..4), k<=1, replayed on a single-word and a "
                 "block-based object, every fourth one after a larger search on the same objects. impl->spec: "
                 "one run = one pattern with a single-word and a block-based matcher object, each reused for the same "
                 "sequence of searches (text, k, eager|lazy); eager: next/next_end/next_path(_reverse)/next_alignment mixed, "
@@ -39,9 +46,11 @@ def plan(tier):
                 "random order and repeated, at searched+1, |t|-1, |t|, |t|+3 (refused when not searched) and - single-word "
                 "version - at arbitrary searched ends; exhaustive over {a,b} (|p|<=3, |t|<=4/5, every k<=|p|) plus "
                 "|p| in {3,5,7,8,9,15,16,17,24,32,33,40,63,64,65,100} with u8..u64 words, texts of 100-120 symbols (ring "
-                "buffer wraps), texts beginning inside the pattern, the pattern stretched by d inserted symbols with k=d+1 (alignments as long as the ring buffer allows), k>=|p|, k=255, stale store after a larger search",
-        "bounds": {"mc": "store machine: Sym={0,1}, |p|<=3, |t|<=4/6, k<=3/4, eager and lazy, second search after two first "
-                         "searches; protocol machine: |p|<=2/3, |t|<=3/4, k<=1/2, all histories of 3/4 calls",
+                "buffer wraps), texts beginning inside the pattern, the pattern stretched by d inserted symbols with k=d+1 (alignments as long as the ring buffer allows), k>=|p|, k=255, stale store after a larger search. distinct_nontrivial counts searches (object, text, k, mode) "
+                "in which some reported path mixes matches and edits",
+        "bounds": {"mc": "store machine: Sym={0,1}, |p|<=3, |t|<=4/5, k<=3, eager and lazy, second search after two first "
+                         "searches; banded store of the block version: W=2, |p|<=5/6, |t|<=4/5, k in {-1,0,1,2,|p|} / every k; "
+                         "protocol machine: |p|<=2, |t|=3 / 3..4, k<=1, all histories of 3/4 calls",
                    "impl": "|p|<=100, |t|<=120, k<=255"},
         "assumptions": ["TLC evaluates ValidPath/LastRow/GlobalDist faithfully; ndJsonDeserialize reads the recorded "
                         "values faithfully",
@@ -55,17 +64,18 @@ def plan(tier):
 
 MANIFEST = {
     "technique": "TLA+ machine of the traceback column store (ring buffer / full history, sentinel column, stale slots "
-                 "after reuse, frontier test of traceback_at, cursor walk) model-checked by TLC against ValidHit and the "
-                 "walk on the complete edit matrix; traces of the real eager and lazy APIs of both Myers implementations "
+                 "after reuse, frontier test of traceback_at, cursor walk; for the block version the band-truncated columns "
+                 "with their sentinel block) model-checked by TLC against ValidHit and the walk on the complete edit matrix; "
+                 "TLC-generated call histories of the protocol machine replayed into the code; traces of the real eager and lazy APIs of both Myers implementations "
                  "validated by TLC: protocol machine with `searched` frontier, path validity, cross-API consistency",
-    "text": "TLC exhausts all patterns/texts over 2 symbols (|p|<=3, |t|<=4/6, k<=3/4, eager and lazy, a second search on "
+    "text": "TLC exhausts all patterns/texts over 2 symbols (|p|<=3, |t|<=4/5, k<=3, eager and lazy, a second search on "
             "the stale store): every traceback reads only fresh, correctly placed columns, is a ValidHit and equals the "
             "walk on the full matrix, and traceback_at refuses exactly the unsearched ends; every recorded answer of the "
             "real FullMatches/LazyMatches APIs (single-word and block-based side by side, reuse, ring wrap-around, k>=|p|) "
             "must be the next hit of the definition, a path that consumes exactly pattern and substring with Match/Subst "
             "labels right and cost = distance = D[m][end], identical for every API/order/repetition/implementation, "
             "and None beyond the searched frontier",
-    "note": "bounded: MC over |p|<=3, |t|<=6; implementation side |p|<=100, |t|<=120; block-version lazy queries at "
+    "note": "bounded: MC over |p|<=3, |t|<=5; implementation side |p|<=100, |t|<=120; block-version lazy queries at "
             "searched non-hit ends are outside the documented domain and not asked; TLC's evaluator and the JSON "
             "projection of the harness are trusted",
     "ref": "sec. 5 C10",
